@@ -257,3 +257,8 @@ _amend('C17', 'Conversion chains that differ from the prescribed static_cast are
 _amend('C18', 'gtc log2, gtx nlz and lowestBitValue by shape analysis; gtx pow(x, n) for constant n = 0..4 as polynomial identities; unsigned mod; factorial on its whole domain 0..12; an incomplete smear ladder is refuted with the witness x = 2^j + 1.',
        'Second known finding: gtx pow(negative, 0) returns -1 (asserted by the repository test).')
 _amend('C20', 'Separate vector overloads are part of the corpus; conditions going through bit ladders (1 << findMSB(x)) are discharged by case analysis on the highest set bit.')
+_amend('C02', 'ext/matrix_common mix (scalar and matrix interpolant) and abs are the element-wise definitions for all nine shapes.')
+_amend('C13', 'Dual-quaternion lerp is the affine blend x (1 - a) + y (+-a) of all eight components with the sign of dot(x.real, y.real), on both decision paths; dual-quaternion normalize divides by |real|.')
+_amend('C16', 'Conversions between aligned and packed vectors (every length, element type, qualifier pair) and matrices keep the element order in the SIMD configurations.')
+_amend('C17', 'Writable swizzles: scalar fill, += -= *= /= with a vector, and assignment / compound assignment of a whole-vector swizzle from the vector itself (aliasing) change exactly the named lanes with the prescribed values.')
+_amend('C18', 'The multiple family is decided for the 8- and 16-bit types in every tier: the dividend of the remainder is read at the width it is computed in and must not wrap on the x-range of its path; undecided paths of the narrow types are refuted by exact evaluation of the derived term at the corners of the range.')
